@@ -31,10 +31,10 @@ Script ==
     [] ScriptName = "same_ctx_removes" ->
          << <<"gen", 1, A(1)>>, <<"gen", 1, A(2)>>, <<"dlv", 2, 1>>, <<"dlv", 2, 2>>,
             <<"gen", 2, RA({1})>>, <<"gen", 2, RA({2})>> >>
-    \* KF-18a shape: two pending removes whose contexts collapse after a reset (4 actors)
+    \* KF-18a shape: two pending removes (of DIFFERENT members) whose contexts collapse after a reset (4 actors)
     [] ScriptName = "collapsing_pending" ->
-         << <<"gen", 1, A(1)>>, <<"dlv", 2, 1>>, <<"gen", 2, R(1)>>, <<"dlv", 3, 1>>, <<"gen", 3, A(1)>>,
-            <<"gen", 3, R(1)>>, <<"dlv", 4, 2>>, <<"dlv", 4, 3>> >>
+         << <<"gen", 1, [c |-> "addall", m |-> 0, ms |-> {1, 2}]>>, <<"dlv", 2, 1>>, <<"gen", 2, R(1)>>,
+            <<"dlv", 3, 1>>, <<"gen", 3, A(2)>>, <<"gen", 3, R(2)>>, <<"dlv", 4, 2>>, <<"dlv", 4, 3>> >>
 ScriptInit == InitAfter(Script)
 
 ProjB(s) == [clock |-> s.clock, entries |-> s.entries, deferred |-> s.deferred]
